@@ -94,6 +94,11 @@ def cases(rng, tier):
 		cs = rng.choice(('utf-8', 'iso8859-1'))
 		yield ('form', cs, tuple(pairs))
 		yield ('query', tuple(pairs))
+	# percent signs followed by hex digits, names and values made of letters / digits outside ASCII only: data like any other
+	for pairs in (((u'name', u'%41'),), ((u'%e9', u'x'),), ((u'a', u'100%25'), (u'%2B', u'%26')), ((u'caf\u00e9', u'\u0432'),), ((u'\u65e5\u672c', u'\u0663'),), ((u'k', u'%'), (u'%', u'%%41')), ((u'\u00df', u'\u00b5\u00aa'),)):
+		for cs in ('utf-8', 'iso8859-1'):
+			yield ('form', cs, pairs)
+		yield ('query', pairs)
 	# long sequences: pair counts around the round numbers a field limit or a block size would use
 	for npairs in (100, 255, 256, 257, 999, 1000, 1001, 1002, 1023, 1024, 1025, 2049) + ((4097, 10001) if tier == 'thorough' else ()):
 		pairs = tuple((u'k%d' % i, rng.choice((u'', u'v', u'a b', u'1+1', u'x=y&z'))) for i in range(npairs))
